@@ -94,14 +94,15 @@ impl Transport {
 
 	pub fn seek_to(&mut self, mut position: usize, num_frames: usize) {
 		if let Some((loop_start, loop_end)) = self.loop_region {
+			// wrap in one step: the seek target can be arbitrarily far from the
+			// loop region, and this runs on the audio / decoder thread
+			let loop_length = loop_end - loop_start;
 			if position > self.position {
-				while position >= loop_end {
-					position -= loop_end - loop_start;
+				if position >= loop_end {
+					position = loop_start + (position - loop_start) % loop_length;
 				}
-			} else {
-				while position < loop_start {
-					position += loop_end - loop_start;
-				}
+			} else if position < loop_start {
+				position += (loop_start - position).div_ceil(loop_length) * loop_length;
 			}
 		}
 		self.position = position;
